@@ -174,11 +174,11 @@ func (pr *PropertyRun) finish(p *Prog, evidenceDir string, kf []KnownFinding) in
 		}
 		ruleSummary[r.Rule] = map[string]interface{}{"title": r.Title, "obligations": len(r.Obs), "discharged": d, "undecided": u, "violated": x, "floor": r.Floor}
 		// up to 3 samples per rule: first discharged ones, plus every non-discharged
-		k := 0
+		k := map[string]int{}
 		for _, o := range r.Obs {
-			if o.Status != Discharged || k < 3 {
+			if o.Status != Discharged || k[o.Rule] < 2 {
 				if o.Status == Discharged {
-					k++
+					k[o.Rule]++
 				}
 				f := o.Facts
 				if len(f) > 600 {
